@@ -1095,9 +1095,30 @@ package p9p
 //@ recursion 16
 // Twalk / Rwalk are decoded through lists of pointers into slices: not followed by the engine. Every contract that inlines
 // decode must show that these kinds do not occur on its paths (an obligation at this line); they are then not explored.
-//@ at "rv := reflect.New(reflect.TypeOf(message))" assert excluded_lists: !typeis(message, MessageTwalk) && !typeis(message, MessageRwalk)
+//@ at "rv := reflect.New(reflect.TypeOf(message))" assert excluded_lists: elemptrs() || !typeis(message, MessageTwalk) && !typeis(message, MessageRwalk)
+// Symbolic-length lists (only under contracts that `use elemptrs`): the list cases fill `elements` with pointers to the
+// elements of the freshly made target slice and recurse; the ghosts record which slice that is for the callee's loop.
+//@ ghost gkind int
+//@ ghost gstr []string
+//@ ghost gqid []Qid
+//@ at "*v = make([]string, int(ll))" set gstr(d) := *v#PLJstring
+//@ at "*v = make([]string, int(ll))" set gkind(d) := 1
+//@ at "*v = make([]Qid, int(ll))" set gqid(d) := *v#PLJp9p_Qid
+//@ at "*v = make([]Qid, int(ll))" set gkind(d) := 2
+// loop 1: the main loop over vs, cut only when len(vs) is symbolic, i.e. for the two element lists
+//@ loop 1 invariant gkind(d) == 1 || gkind(d) == 2
+//@ loop 1 invariant gkind(d) == 1 ==> len(vs) == len(gstr(d)) && forall(k, 0, len(vs), vs[k] == toiface(elemptr(gstr(d), k)))
+//@ loop 1 invariant gkind(d) == 2 ==> len(vs) == len(gqid(d)) && forall(k, 0, len(vs), vs[k] == toiface(elemptr(gqid(d), k)))
+//@ loop 1 invariant d.rd == entry(d.rd) && typeis(d.rd, *bytes.Reader)
+//@ loop 1 invariant blen(rem(d.rd)) <= blen(entry(rem(d.rd))) && dynalloc() - entry(dynalloc()) <= 2 * (blen(entry(rem(d.rd))) - blen(rem(d.rd)))
+// loops 2 and 3: fill `elements` with the element pointers
+//@ loop 2 invariant gkind(d) == 1 && gstr(d) == *v#PLJstring
+//@ loop 2 invariant len(elements#LJinterface__) == len(*v#PLJstring) && forall(k, 0, $done, elements#LJinterface__[k] == toiface(elemptr(*v#PLJstring, k)))
+//@ loop 3 invariant gkind(d) == 2 && gqid(d) == *v#PLJp9p_Qid
+//@ loop 3 invariant len(elements#LJinterface__) == len(*v#PLJp9p_Qid) && forall(k, 0, $done, elements#LJinterface__[k] == toiface(elemptr(*v#PLJp9p_Qid, k)))
 
 //@ func (codec9p).Marshal
+//@ timeout 60
 //@ property C01
 //@ use wirekind wiredef bytes noassoc assoc_r
 //@ foreach MessageTversion MessageRversion MessageTauth MessageRauth MessageTattach MessageRattach MessageRerror MessageTflush MessageRflush MessageTopen MessageRopen MessageTcreate MessageRcreate MessageTread MessageRread MessageTwrite MessageRwrite MessageTclunk MessageRclunk MessageTremove MessageRremove MessageTstat MessageRstat MessageTwstat MessageRwstat MessageTwalk
@@ -1108,6 +1129,7 @@ package p9p
 //@ ensures layout: err == nil && bytes(result0) == old(layout(F))
 
 //@ func (codec9p).Size
+//@ timeout 60
 //@ property C01
 //@ use wirekind wiredef wiremono bytes noassoc assoc_r
 //@ foreach MessageTversion MessageRversion MessageTauth MessageRauth MessageTattach MessageRattach MessageRerror MessageTflush MessageRflush MessageTopen MessageRopen MessageTcreate MessageRcreate MessageTread MessageRread MessageTwrite MessageRwrite MessageTclunk MessageRclunk MessageTremove MessageRremove MessageTstat MessageRstat MessageTwstat MessageRwstat MessageTwalk
@@ -1124,7 +1146,7 @@ package p9p
 //@ property C01
 //@ use wirekind wiredefr bytes noassoc
 //@ prune
-//@ timeout 45
+//@ timeout 60
 //@ foreach MessageTversion MessageRversion MessageTauth MessageRauth MessageTattach MessageRattach MessageRerror MessageTflush MessageRflush MessageTopen MessageRopen MessageTcreate MessageRcreate MessageTread MessageRread MessageTwrite MessageRwrite MessageTclunk MessageRclunk MessageTremove MessageRremove MessageTstat MessageRstat MessageTwstat MessageRwstat
 //@ logical f Fcall
 //@ dyn v : *Fcall
@@ -1314,6 +1336,7 @@ package p9p
 // decoding again gives the same value, by the C01 round trip). Type bytes Twalk (110) and Rwalk (111) are excluded:
 // their decoders build lists of pointers into slices, which the engine's memory model cannot follow (see DESIGN.md).
 //@ func (codec9p).Unmarshal#any
+//@ timeout 60
 //@ property C04
 //@ use wirekind wiredefr bytes bytes_split noassoc
 //@ dyn v : *Fcall
@@ -1330,6 +1353,7 @@ package p9p
 
 // Unmarshal into a *Dir (the target DecodeDir uses): no panic on any input, allocation linear in the input.
 //@ func (codec9p).Unmarshal#dir
+//@ timeout 60
 //@ property C04
 //@ use bytes noassoc
 //@ dyn v : *Dir
@@ -1338,6 +1362,7 @@ package p9p
 
 // DecodeDir reads one stat record from any reader: size[2], then size bytes, then decodes them.
 //@ func DecodeDir
+//@ timeout 60
 //@ property C04 C17
 //@ use bytes
 //@ requires codec != nil && d != nil
@@ -1361,7 +1386,7 @@ package p9p
 //@ macro TODO(r) = (r.buf != nil ? bcat(encDir(*r.buf), src(r.nextfn)) : src(r.nextfn))
 
 //@ func (*Readdir).Read
-//@ timeout 40
+//@ timeout 60
 //@ property C17
 //@ use bytes assoc_r noassoc
 //@ requires rd != nil && rd.nextfn != nil && rd.codec != nil
@@ -1382,8 +1407,21 @@ package p9p
 //@ loop 1 invariant rd.buf != nil ==> len(p) == 0
 
 //@ func (codec9p).Marshal#dir
+//@ timeout 60
 //@ property C17
 //@ use bytes noassoc assoc_r
 //@ dyn v : Dir
 //@ requires repDir(v.(Dir))
 //@ ensures stat_record: err == nil && bytes(result0) == encDir(v.(Dir))
+
+// The two list-carrying kinds (type bytes 110, 111), for arbitrary input: no panic, allocation linear in the input.
+//@ func (codec9p).Unmarshal#lists
+//@ timeout 60
+//@ property C04
+//@ use wirekind bytes noassoc
+//@ elemptrs
+//@ dyn v : *Fcall
+//@ let T0 = dec1(btake(bytes(data), 1))
+//@ requires v.(*Fcall) != nil
+//@ requires len(data) >= 1 ==> T0 == 110 || T0 == 111
+//@ ensures proportionate: dynalloc() - old(dynalloc()) <= 24 * len(data)
